@@ -60,3 +60,81 @@ pub use crate::text::lines::VERIF_FORWARD_WALK_CAP;
 pub use crate::yaml::verif_positions::{
     AdvancePositions, AdvancePositionsCursor, CompactEndPositions, EndPositions, OpenPositions,
 };
+// ---------------------------------------------------------------------------
+// DSV indexing engines and quote-mask kernels (C20)
+// ---------------------------------------------------------------------------
+
+/// Shared quote-mask kernels (`util::simd::quote_mask`, crate-private).
+pub fn dsv_prefix_xor(x: u64) -> u64 {
+    crate::util::simd::quote_mask::prefix_xor(x)
+}
+
+/// `quote_mask::next_carry`.
+pub fn dsv_next_carry(carry: u64, quote_mask: u64) -> u64 {
+    crate::util::simd::quote_mask::next_carry(carry, quote_mask)
+}
+
+/// `quote_mask::toggle64_from_prefix_xor` fed with `prefix_xor(quote_mask)` (the AVX2/SSE2 tail).
+pub fn dsv_toggle64_prefix_xor(carry: u64, quote_mask: u64) -> (u64, u64) {
+    crate::util::simd::quote_mask::toggle64_from_prefix_xor(
+        carry,
+        quote_mask,
+        crate::util::simd::quote_mask::prefix_xor(quote_mask),
+    )
+}
+
+/// `quote_mask::toggle64_from_deposit` with an explicit addend.
+pub fn dsv_toggle64_from_deposit(carry: u64, quote_mask: u64, addend: u64) -> (u64, u64) {
+    crate::util::simd::quote_mask::toggle64_from_deposit(carry, quote_mask, addend)
+}
+
+/// `x86::toggle64_bmi2` (PDEP deposit); `None` when BMI2 is not available on this CPU.
+#[cfg(all(target_arch = "x86_64", feature = "std"))]
+pub fn dsv_toggle64_bmi2(carry: u64, quote_mask: u64) -> Option<(u64, u64)> {
+    if std::arch::is_x86_feature_detected!("bmi2") {
+        // SAFETY: BMI2 checked above.
+        Some(unsafe { crate::util::simd::x86::toggle64_bmi2(carry, quote_mask) })
+    } else {
+        None
+    }
+}
+
+/// Scalar reference engine (`dsv::parser::build_index`).
+pub fn dsv_build_index_scalar(text: &[u8], config: &crate::dsv::DsvConfig) -> crate::dsv::DsvIndex {
+    crate::dsv::build_index_scalar(text, config)
+}
+
+/// SSE2 engine (`dsv::simd::sse2`), baseline on x86_64.
+#[cfg(all(target_arch = "x86_64", feature = "std"))]
+pub fn dsv_build_index_sse2(text: &[u8], config: &crate::dsv::DsvConfig) -> Option<crate::dsv::DsvIndex> {
+    if std::arch::is_x86_feature_detected!("sse2") {
+        Some(crate::dsv::simd::sse2::build_index_simd(text, config))
+    } else {
+        None
+    }
+}
+
+/// AVX2 engine (`dsv::simd::avx2`); `None` when AVX2 is not available on this CPU.
+#[cfg(all(target_arch = "x86_64", feature = "std"))]
+pub fn dsv_build_index_avx2(text: &[u8], config: &crate::dsv::DsvConfig) -> Option<crate::dsv::DsvIndex> {
+    if std::arch::is_x86_feature_detected!("avx2") {
+        Some(crate::dsv::simd::avx2::build_index_simd(text, config))
+    } else {
+        None
+    }
+}
+
+/// BMI2+AVX2 engine (`dsv::simd::bmi2`); `None` unless both features are available.
+#[cfg(all(target_arch = "x86_64", feature = "std"))]
+pub fn dsv_build_index_bmi2(text: &[u8], config: &crate::dsv::DsvConfig) -> Option<crate::dsv::DsvIndex> {
+    if std::arch::is_x86_feature_detected!("avx2") && std::arch::is_x86_feature_detected!("bmi2") {
+        Some(crate::dsv::simd::bmi2::build_index_simd(text, config))
+    } else {
+        None
+    }
+}
+
+/// Runtime dispatcher (`dsv::build_index`).
+pub fn dsv_build_index_dispatch(text: &[u8], config: &crate::dsv::DsvConfig) -> crate::dsv::DsvIndex {
+    crate::dsv::build_index(text, config)
+}
